@@ -1,6 +1,7 @@
 import StatimeModel.Lemmas.Order
 import StatimeModel.Spec.StateDecision
 import StatimeModel.Model.Instance
+import StatimeModel.Lemmas.BmcaBind
 /-
 C05 — BMCA state decision matches IEEE 1588 for every data set combination.
 
@@ -299,6 +300,81 @@ theorem decision_payload (own : DefaultDS) (ebest erbest : Option Best) (listeni
               simp only at *
               split at * <;> simp_all
           · split at h <;> cases h
+
+/-! ### The port on which S1 was decided is bound to the selected parent -/
+
+/-- **Decision S1 applied to a port** (`set_recommended_state`, any port that is not disabled by a peer-delay fault,
+whatever it was doing before): afterwards the port is Slave *of the sender of the selected Announce* — also when it
+was already Slave of another port of the same clock — and that sender is the parent the data sets name.
+(`boundTo` = `SlaveState::remote_master`, the `RM` part of the state line.) -/
+theorem s1_binds_port_to_parent (p p' : Port) (a : Ann) (s s' : InstState) (ev : List Out) (pend : Option (List Out))
+    (hf : p.st ≠ .faulty)
+    (h : p.setRecommendedState (.s1 a) s = .ok (p', s', ev, pend)) :
+    boundTo p' = some a.hdr.src ∧ s'.parent.parentPort = a.hdr.src :=
+  setRecommendedState_s1_binds p p' a s s' ev pend hf h
+
+/-- **After every BMCA run (all ports passed, each once) every Slave port is bound to the parent the data sets name**:
+whatever the ports were doing before the run, whichever order they are presented in, whatever else the run decided for
+the other ports. -/
+theorem bmca_binds_slaves_to_the_parent (i i' : Inst) (order : List Nat) (obs : Obs) (hnd : order.Nodup)
+    (hall : ∀ j, j < i.ports.length → j + 1 ∈ order)
+    (h : i.bmca order = .ok (i', obs)) :
+    ∀ (j : Nat) (p' : Port), i'.ports[j]? = some p' → ∀ r, boundTo p' = some r → r = i'.st.parent.parentPort := by
+  unfold Inst.bmca at h
+  split at h
+  · cases h
+  · obtain ⟨step, _, hw⟩ := orOv_ok _ _ _ h
+    unfold Inst.bmcaWith at hw
+    simp only at hw
+    obtain ⟨t1, t2, _⟩ := bmcaTakeBest_spec order i.ports []
+    generalize bmcaTakeBest order i.ports [] = tb at hw t1 t2
+    obtain ⟨ports1, lbs⟩ := tb
+    simp only at hw t1 t2
+    generalize (order.filterMap fun k =>
+        match portAt ports1 k with
+        | some p => bestForBmca p ((lbs.lookup k).getD none)
+        | none => none) = cands at hw
+    cases hap : bmcaApply (findBest cands) lbs order ports1 i.st [] [] with
+    | error e => rw [hap] at hw; cases hw
+    | ok v =>
+      obtain ⟨ports2, s2, ev2, pend2⟩ := v
+      rw [hap] at hw
+      simp only at hw
+      cases hag : bmcaAge step order ports2 with
+      | error e => rw [hag] at hw; cases hw
+      | ok ports3 =>
+        rw [hag] at hw
+        simp only [Except.ok.injEq, Prod.mk.injEq] at hw
+        obtain ⟨hi', _⟩ := hw
+        obtain ⟨a1, _, _, _, _⟩ := bmcaApply_spec (findBest cands) lbs order hnd ports1 i.st [] [] ports2 s2 ev2 pend2 hap
+        obtain ⟨_, bnd⟩ := bmcaApply_bind i.st.dflt (findBest cands) lbs order hnd ports1 i.st [] [] ports2 s2 ev2 pend2 rfl hap
+        obtain ⟨g1, g2⟩ := bmcaAge_spec step order ports2 ports3 hag
+        intro j p' hp' r hr
+        rw [← hi'] at hp' ⊢
+        simp only at hp' ⊢
+        have hj3 : j < ports3.length := by
+          by_cases hc : j < ports3.length
+          · exact hc
+          · rw [List.getElem?_eq_none (Nat.le_of_not_lt hc)] at hp'; cases hp'
+        have hj2 : j < ports2.length := by rw [← g1]; exact hj3
+        obtain ⟨p3, hp3, hsr⟩ := g2 j ports2[j] (List.getElem?_eq_getElem hj2)
+        rw [hp'] at hp3; cases hp3
+        have hst : p'.st = ports2[j].st := hsr.2.2.1
+        have hs : ports2[j].st.isSlave = true := by rw [← hst]; exact boundTo_some_isSlave hr
+        have hjo : j + 1 ∈ order := hall j (by rw [← t1, ← a1]; exact hj2)
+        obtain ⟨⟨a, ha, hpar⟩, a', ha', hb⟩ := bnd j ports2[j] (List.getElem?_eq_getElem hj2) hjo hs
+        rw [ha] at ha'; cases ha'
+        rw [boundTo_congr hst, hb] at hr
+        cases hr
+        exact hpar.symm
+
+/-- a port that was Slave of port 1 of a clock and is handed S1 for port 2 of the same clock follows it (non-vacuity of
+the case the theorem is about) -/
+example :
+    let p : Port := { (default : Port) with st := .slave ⟨5, 1⟩ .empty .empty none }
+    let a : Ann := ⟨{ src := ⟨5, 2⟩ }, { origin := ⟨0, 0⟩, utcOffset := 0, p1 := 10, clockClass := 6, accuracy := 0x20, variance := 100, p2 := 1, gm := 5, steps := 1, timeSource := 0 }⟩
+    (portMove p (.s1 a) default).map (·.1) = some (.slave ⟨5, 2⟩ .empty .empty none) := by
+  decide
 
 /-! ### Non-vacuity -/
 
